@@ -708,12 +708,34 @@ class C16(Cfg):
         bign = 2300 if tier == "thorough" else 1100
         out += [dict(kind="scan", args=["-seed", seed * 1000 + 440 + i, "-big", bign, "-bigfam", f])
                 for i, f in enumerate(["key", "set", "hash", "zset"])]
+        # the wire commands: SCAN / SSCAN / HSCAN / ZSCAN page by page (every cursor a page can return is asked for) over a
+        # keyspace with runs of keys of one type and collections filled in ascending order, with TYPE, MATCH and COUNT
+        sc = "---\n"
+        for i in range(12):
+            sc += f"1 SET a{i:02d} v\n"
+        for i in range(4):
+            sc += f"1 HSET b{i:02d} f v\n1 RPUSH c{i:02d} x\n"
+        for i in range(14):
+            sc += f"1 SADD S e{i:02d}\n1 HSET H e{i:02d} v\n1 ZADD Z {i} e{i:02d}\n"
+        for cur in range(0, 22):
+            for opts in ("", " COUNT 3", " TYPE hash", " TYPE hash COUNT 3", " TYPE list COUNT 1", " MATCH b* TYPE hash COUNT 2", " MATCH a* COUNT 5", " TYPE string COUNT 12", " COUNT 0"):
+                sc += f"1 SCAN {cur}{opts}\n"
+        for cur in range(0, 45, 2):
+            for opts in ("", " COUNT 3", " MATCH e0* COUNT 4", " COUNT 14", " COUNT 0"):
+                sc += f"1 SSCAN S {cur}{opts}\n1 HSCAN H {cur}{opts}\n1 ZSCAN Z {cur}{opts}\n"
+        out.append(dict(kind="wirescript", driver="wiredriver", script=sc))
         return out
 
     def counts(self, op, v):
         return True
 
+    needs_wire = True
+
     def judge(self, op, v, mode):
+        if v.get("_wire") is not None:
+            if v.get("M") == "0":
+                return ("violation", "a page of a wire scan command (cursor, items, type filter, count) is not the page the repository call returns (wire model)")
+            return None
         if v.get("S") == "0" and not (set(v["K"]) & self.listed):
             return ("violation", "the iteration did not return every matching element exactly once and the rowid order agrees with the index order (no D10)")
         if v.get("M") == "0":
@@ -785,12 +807,16 @@ class C08(Cfg):
         out += [dict(kind="conc", args=["-seed", seed * 1000 + 650 + i, "-rounds", r // 2, "-cons", 1, "-cfgs", "shared"]) for i in range(2)]
         # clients of one server: the real binary over a unix socket, single commands and MULTI...EXEC blocks from 2..5 connections
         out += [dict(kind="srvconc", args=["-seed", seed * 1000 + 670 + i, "-rounds", r // 2]) for i in range(4)]
+        # six clients on private keys in tight loops: every reply is determined by the client's own history
+        out += [dict(kind="srvconc", args=["-hammer", 6000 if tier == "thorough" else 1500]) for i in range(2)]
         return out
 
     def counts(self, op, v):
-        return "L" in v
+        return "L" in v or "TK" in v
 
     def judge(self, op, v, mode):
+        if v.get("TK") == "0":
+            return ("violation", "a client of the server received a reply that its own history does not explain although no other client touches its keys")
         if "L" not in v:
             return None
         if v.get("E") == "1" and not (set(v["K"]) & self.listed):
@@ -866,14 +892,24 @@ class C20(CrossCfg):
         out.append(dict(kind="tick", args=["-backlog", 120000 if tier == "thorough" else 40000]))
         # the reclamation goroutine exists exactly while a read-write handle is open (open / close orders, shared Options)
         out.append(dict(kind="tick", args=["-lifecycle"]))
+        # reclamation steps concurrent with writers (some of them to names whose expiry has passed) and readers on one
+        # handle: the round must be explainable by a sequential order of whole operations
+        out += [dict(kind="conc", args=["-seed", seed * 1000 + 860 + i, "-rounds", 400 if tier == "thorough" else 120, "-cons", 0, "-cfgs", "wal,memdb"])
+                for i in range(4)]
         if tier == "thorough":
             out.append(dict(kind="tick", args=["-seed", seed, "-keys", 2000]))
         return out
 
     def counts(self, op, v):
-        return op == "key.DeleteExpired" or "TK" in v
+        return op == "key.DeleteExpired" or "TK" in v or "L" in v
 
     def judge(self, op, v, mode):
+        if "L" in v:       # a concurrent round with reclamation steps
+            if v.get("E") == "1" and not (set(v["K"]) & {"D15"}):
+                return ("violation", "an operation failed merely because the reclamation (or another operation) was running")
+            if v.get("L") == "0" and not (set(v["K"]) & {"D15"}):
+                return ("violation", "a concurrent round with reclamation steps is not explained by any sequential order of whole operations (a live key was touched, or a write was lost)")
+            return None
         if "TK" in v:      # a TICK line of the real-time observation
             if v.get("TK") == "0":
                 return ("violation", "expired keys were not reclaimed within the period, or live keys were touched, or service failed during the tick")
@@ -1043,6 +1079,23 @@ class C14(WireCfg):
 
     sock_streams = 3
 
+    def streams(self, tier, seed, search):
+        out = WireCfg.streams(self, tier, seed, search)
+        # requests that end in an error reply, each repeated far more often than any pool of connections, cursors or
+        # buffers is large, then ordinary reads and writes: a resource that an error path does not give back runs out
+        # and the next request never returns (reported by the hang watchdog with its input)
+        rep = 24
+        setup = ["1 ZADD za +inf m", "1 ZADD zb -inf m", "1 SET s notanumber", "1 RPUSH l a", "1 HSET h f x", "1 SADD st a"]
+        errs = ["1 ZUNION 2 za zb WITHSCORES", "1 ZINTER 2 za zb", "1 ZUNIONSTORE d 2 za zb", "1 ZINTERSTORE d 2 za zb", "1 INCR s", "1 INCRBYFLOAT s 1.5",
+                "1 LPUSH s x", "1 HINCRBY h f 1", "1 SADD l x", "1 LRANGE nolist -2 -1", "1 LSET l 9 x", "1 RENAME nokey other",
+                "1 ZADD st 1 m", "1 SMOVE st l a", "1 GET l", "1 ZRANGE l 0 -1", "1 HGETALL l", "1 SINTERSTORE l st st", "1 SCAN x"]
+        probes = ["1 GET s", "1 EXISTS s l h", "1 ZCARD za", "1 LLEN l", "1 SET s2 v", "1 DBSIZE", "1 KEYS *", "1 HGET h f", "1 SCARD st"]
+        script = "---\n" + "\n".join(setup) + "\n"
+        for e in errs:
+            script += (e + "\n") * rep + "\n".join(probes) + "\n"
+        out.append(dict(kind="wirescript", driver="wiredriver", script=script))
+        return out
+
     def judge(self, op, v, mode):
         if "H" in v:
             return judge_sock(v, v.get("_line", ""))
@@ -1100,6 +1153,13 @@ class C15(WireCfg):
         out.append(dict(kind="wirescript", driver="wiredriver", script=script))
         # a block far longer than any batching constant: 1100 queued commands, then one that fails; nothing may be kept
         # (and a block of 1100 commands that all succeed is kept whole)
+        # relative expiries inside a block are relative to EXEC, not to the moment the command was queued (requests are
+        # at least a millisecond apart, so a time resolved at queue time shows in the stored expiry)
+        rel = ""
+        for cmds in (["SET k v EX 3600"], ["SET k v PX 3600000", "GET k"], ["SET k v", "EXPIRE k 7200"], ["SET k v", "PEXPIRE k 7200000"],
+                     ["SETEX k 3600 v"], ["PSETEX k 3600000 v"], ["SET k v NX EX 3600", "TTL k"], ["RPUSH l a", "EXPIRE l 3600", "PERSIST l", "EXPIRE l 7200"]):
+            rel += "---\n1 MULTI\n" + "".join(f"1 {c}\n" for c in cmds) + "1 PING\n1 ECHO wait\n1 EXEC\n1 TTL k\n1 TTL l\n"
+        out.append(dict(kind="wirescript", driver="wiredriver", script=rel))
         big = "---\n1 SET str x\n1 MULTI\n" + "1 INCR counter\n" * 1100 + "1 LPUSH str y\n1 EXEC\n1 GET counter\n1 DBSIZE\n"
         big += "---\n1 MULTI\n" + "1 INCR counter\n" * 1100 + "1 EXEC\n1 GET counter\n"
         out.append(dict(kind="wirescript", driver="wiredriver", script=big))
